@@ -12,7 +12,7 @@ RULE = ("random problems (3 geometries with parameters in their valid ranges x 7
 
 
 def run(ctx):
-    ctx.prove()
+    ctx.prove(extra_modules=["GMGProofs.Props.C03c"])
     h = ctx.build_harness("h_ops")
     if ctx.tier == "quick":
         ctx.pipe([h, "residual", "25", "17", "32"], "residual")
